@@ -112,9 +112,20 @@ func genC12() *rapid.Generator[*Spec] {
 		}
 		// name list helper
 		nameList := func(allowBad bool) ([]string, string) {
-			mode := x.pick([]string{"subset", "subset", "subset", "all", "badcase", "unknown", "dup"}, "names")
-			if !allowBad && (mode == "badcase" || mode == "unknown" || mode == "dup") {
+			mode := x.pick([]string{"subset", "subset", "subset", "all", "badcase", "unknown", "dup", "promoted"}, "names")
+			if !allowBad && (mode == "badcase" || mode == "unknown" || mode == "dup" || mode == "promoted") {
 				mode = "subset"
+			}
+			if mode == "promoted" {
+				// the name of a field of an embedded struct (every fresh struct
+				// has a field Tok): a selector S.Tok is legal Go, but Tok is not
+				// a field of S
+				mode = "unknown-tok"
+				for _, f := range fields {
+					if f.Embedded {
+						mode = "promoted"
+					}
+				}
 			}
 			var names []string
 			for _, f := range fields {
@@ -127,6 +138,8 @@ func genC12() *rapid.Generator[*Spec] {
 				if len(fields) > 0 {
 					names = append(names, swapCase(fields[x.intn(0, nf-1, "badidx")].Name))
 				}
+			case "promoted", "unknown-tok":
+				names = append(names, "Tok")
 			case "unknown":
 				names = append(names, x.pick([]string{"Nope", "tok", "", " ", "S", "**"}, "unknownname"))
 			case "dup":
